@@ -289,3 +289,36 @@ Definition mk_tgates (gs : list (gate nat nat)) (kbs : list (nat * nat)) : list 
   map (fun gk => to_tgate (fst gk) (snd gk)) (combine gs kbs).
 Fixpoint repeat_list {A} (n : nat) (l : list A) : list A :=
   match n with O => [] | S n' => l ++ repeat_list n' l end.
+
+(* ================================================================================================ *)
+(* executable form of the hypotheses of the universal two-site theorems (TrotterProofs.pair_ok)     *)
+(* ================================================================================================ *)
+Definition pair_okb (a : id) (na : node) (b : id) (nb : node) : bool :=
+  negb (Nat.eqb a b)
+  && nodupb (children na) && nodupb (children nb)
+  && forallb (fun x => negb (memb x (children nb))) (children na)
+  && negb (memb a (children na)) && negb (opt_id_eqb (parent na) (Some a))
+  && negb (memb b (children nb)) && negb (opt_id_eqb (parent nb) (Some b))
+  && match parent na with Some p => negb (memb p (children na)) && (Nat.eqb p b || negb (memb p (children nb))) | None => true end
+  && match parent nb with Some p => negb (memb p (children nb)) && (Nat.eqb p a || negb (memb p (children na))) | None => true end
+  && ((memb b (children na) && opt_id_eqb (parent nb) (Some a) && negb (memb a (children nb)) && negb (opt_id_eqb (parent na) (Some b)))
+      || (memb a (children nb) && opt_id_eqb (parent na) (Some b) && negb (memb b (children na)) && negb (opt_id_eqb (parent nb) (Some a))))
+  && Nat.leb (nvirt na) (nlegs na) && Nat.leb (nvirt nb) (nlegs nb).
+
+Definition gate_hyp_ok (contr : id) (s : store) (g : tgate) : bool :=
+  match t_ids g with
+  | [a; b] => match aget a (nodes s), aget b (nodes s) with
+              | Some na, Some nb => pair_okb a na b nb && negb (Nat.eqb contr a) && negb (Nat.eqb contr b)
+              | _, _ => false
+              end
+  | _ => true
+  end.
+
+(* along one step: do the hypotheses hold before every two-site gate? *)
+Fixpoint tebd_hyps (contr : id) (s : store) (gs : list tgate) : list bool :=
+  match gs with
+  | [] => []
+  | g :: t => gate_hyp_ok contr s g :: match apply_gate contr s g with Some s' => tebd_hyps contr s' t | None => [] end
+  end.
+Definition build_and_hyps (contr : id) (ops : list op) (gs : list tgate) : bool :=
+  forallb (fun b => b) (tebd_hyps contr (fst (run empty_store ops)) gs).
